@@ -1,53 +1,106 @@
 ---------------------------- MODULE CmdLine ----------------------------
 (* Abstract meaning of parsec_cmd_line_parse (parsec/utils/cmd_line.c, property C39) on a token alphabet:
-     1..NOpt   the long option token "--o<k>"  (declared iff np[k] >= 0, np[k] = number of parameters)
-     TShort    the short option token "-s"     (short name of option `short`, 0 = of no option)
-     TP, TQ    plain words "p", "q"
-     TEnd      the special token "--"
+     1..NOpt     the long option token "--o<k>"  (declared iff np[k] >= 0, np[k] = number of parameters)
+     TShort      the short option token "-s"     (short name of option `short`, 0 = of no option)
+     TP, TQ      plain words "p", "q"
+     TEnd        the special token "--"
+     LBase + n   a single dash followed by letters, one per decimal digit of n (1 = 'a', 2 = 'b', ..): LBase + 1 = "-a",
+                 LBase + 132 = "-acb".  Under a table with short = -1 every declared option k has the letter k as its
+                 short name (under the other tables no option has a letter).
    argv[1] is the program name (not parsed).  Parsing (ignore_unknown = TRUE) scans from the left: "--" ends the
    options and sends the rest to the tail; a plain word that is not a parameter sends itself and the rest to the
    tail; a declared option takes its np following tokens (whatever they are) as parameters - too few is an error;
    an undeclared option is an error and goes to the tail with the rest.
-   Result: [ok, insts (sequence of <<option, parameters>> in order of appearance), tail]. *)
+   Several short names combined in one argument (cmd_line.h: "-abc" can be equivalent to "-a -b -c"; split_shorts):
+   the argument stands for its letters given separately, in order, each declared one followed by its parameters, which
+   are taken in that order from the tokens following the argument ("-acb A0 B0 B1 r" with a: 1, b: 2, c: 0 parameters
+   = "-a A0 -c -b B0 B1 r"); when the tokens run out the missing parameters are an error (TEmpty = the placeholder
+   split_shorts inserts); a group whose FIRST letter is no short name is an unknown option.
+   Result: [ok, insts (sequence of <<option, parameters>> in order of appearance), tail, exact].  exact = FALSE: a
+   parse error after a group was expanded - what the tail holds then (rewritten tokens) is promised nowhere and is not
+   compared. *)
 EXTENDS Naturals, Integers, Sequences, FiniteSets, TLC, Json
-CONSTANTS NOpt, MaxArgs, Tables      \* Tables: set of records [np |-> <<..>>, short |-> k]
+CONSTANTS NOpt, Tables, ArgvSet,     \* Tables: set of records [np |-> <<..>>, short |-> k]; ArgvSet: argument vectors
+          Tables2, ArgvSet2          \* a second family (groups of short names) with its own tables
 TShort == NOpt + 1
 TP == NOpt + 2
 TQ == NOpt + 3
 TEnd == NOpt + 4
 Tokens == 1..TEnd
+TEmpty == 999
+LBase == 1000
+RECURSIVE Digits(_)
+Digits(n) == IF n < 10 THEN <<n>> ELSE Append(Digits(n \div 10), n % 10)
+Letters(t) == Digits(t - LBase)                       \* for t > LBase
+\* the option a letter names under a table (0 = none)
+LetterOpt(d, tab) == IF tab.short = -1 /\ d \in 1..NOpt THEN (IF tab.np[d] >= 0 THEN d ELSE 0) ELSE 0
 \* the option a token names under a table (0 = none / not an option token)
 OptOf(t, tab) == IF t \in 1..NOpt THEN (IF tab.np[t] >= 0 THEN t ELSE 0)
-                 ELSE IF t = TShort THEN (IF tab.short # 0 /\ tab.np[tab.short] >= 0 THEN tab.short ELSE 0) ELSE 0
-IsOptToken(t) == t \in 1..NOpt \/ t = TShort
+                 ELSE IF t = TShort THEN (IF tab.short \in 1..NOpt /\ tab.np[tab.short] >= 0 THEN tab.short ELSE 0)
+                 ELSE IF t > LBase /\ Len(Letters(t)) = 1 THEN LetterOpt(t - LBase, tab) ELSE 0
+IsOptToken(t) == t \in 1..NOpt \/ t = TShort \/ t > LBase
+IsGroup(t) == t > LBase /\ Len(Letters(t)) >= 2
 
-RECURSIVE ParseFrom(_, _, _, _)
-ParseFrom(a, tab, i, insts) ==
-    IF i > Len(a) THEN [ok |-> TRUE, insts |-> insts, tail |-> <<>>]
-    ELSE IF a[i] = TEnd THEN [ok |-> TRUE, insts |-> insts, tail |-> SubSeq(a, i + 1, Len(a))]
-    ELSE IF ~IsOptToken(a[i]) THEN [ok |-> TRUE, insts |-> insts, tail |-> SubSeq(a, i, Len(a))]       \* plain word
-    ELSE IF OptOf(a[i], tab) = 0 THEN [ok |-> FALSE, insts |-> insts, tail |-> SubSeq(a, i, Len(a))]   \* unknown option
+RECURSIVE Expand(_, _, _, _)
+\* split_shorts: the letters ls of a group and the tokens args following it -> the letters given separately, each
+\* declared one followed by its parameters taken from args starting at `used`; [out, used]
+Expand(ls, args, tab, used) ==
+    IF ls = <<>> THEN [out |-> <<>>, used |-> used]
+    ELSE LET o == LetterOpt(Head(ls), tab)
+             n == IF o = 0 THEN 0 ELSE tab.np[o]
+             take == IF n <= Len(args) - used THEN n ELSE Len(args) - used
+             rest == Expand(Tail(ls), args, tab, used + take)
+         IN [out |-> <<LBase + Head(ls)>> \o SubSeq(args, used + 1, used + take) \o (IF n = take THEN <<>> ELSE [k \in 1..(n - take) |-> TEmpty]) \o rest.out,
+             used |-> rest.used]
+
+RECURSIVE ParseFrom(_, _, _, _, _)
+\* ex: a group has been expanded before
+ParseFrom(a, tab, i, insts, ex) ==
+    IF i > Len(a) THEN [ok |-> TRUE, insts |-> insts, tail |-> <<>>, exact |-> TRUE]
+    ELSE IF a[i] = TEnd THEN [ok |-> TRUE, insts |-> insts, tail |-> SubSeq(a, i + 1, Len(a)), exact |-> TRUE]
+    ELSE IF ~IsOptToken(a[i]) THEN [ok |-> TRUE, insts |-> insts, tail |-> SubSeq(a, i, Len(a)), exact |-> TRUE]   \* plain word
+    ELSE IF IsGroup(a[i]) /\ LetterOpt(Letters(a[i])[1], tab) # 0 THEN                                             \* group of short names
+         LET x == Expand(Letters(a[i]), SubSeq(a, i + 1, Len(a)), tab, 0)
+         IN ParseFrom(SubSeq(a, 1, i - 1) \o x.out \o SubSeq(a, i + 1 + x.used, Len(a)), tab, i, insts, TRUE)
+    ELSE IF OptOf(a[i], tab) = 0 THEN [ok |-> FALSE, insts |-> insts, tail |-> SubSeq(a, i, Len(a)), exact |-> ~ex]  \* unknown option
     ELSE LET o == OptOf(a[i], tab)
              n == tab.np[o]
-         IN IF i + n > Len(a) THEN [ok |-> FALSE, insts |-> insts, tail |-> <<>>]                      \* too few parameters
-            ELSE ParseFrom(a, tab, i + n + 1, Append(insts, <<o, SubSeq(a, i + 1, i + n)>>))
-Parse(a, tab) == ParseFrom(a, tab, 2, <<>>)
+         IN IF i + n > Len(a) THEN [ok |-> FALSE, insts |-> insts, tail |-> <<>>, exact |-> ~ex]                     \* too few parameters
+            ELSE IF \E k \in 1..n : a[i + k] = TEmpty THEN [ok |-> FALSE, insts |-> insts, tail |-> <<>>, exact |-> FALSE]
+            ELSE ParseFrom(a, tab, i + n + 1, Append(insts, <<o, SubSeq(a, i + 1, i + n)>>), ex)
+Parse(a, tab) == ParseFrom(a, tab, 2, <<>>, FALSE)
 InstsOf(res, o) == SelectSeq(res.insts, LAMBDA x : x[1] = o)
 ParamsOf(res, o) == [k \in 1..Len(InstsOf(res, o)) |-> InstsOf(res, o)[k][2]]
 
-\* ---- input generator: every argument vector of <= MaxArgs tokens with every table ---------------------------
+\* ---- input generator: every argument vector of a set with every table (two families) -------------------------
 VARIABLES argv, tab, res
-Argvs == UNION {[1..n -> Tokens] : n \in 0..MaxArgs}
-Init == argv \in Argvs /\ tab \in Tables /\ res = [ok |-> TRUE, insts |-> <<>>, tail |-> <<0>>]
+\* every argument vector of <= n tokens of the basic alphabet
+AllArgvs(n) == UNION {[1..k -> Tokens] : k \in 0..n}
+\* a prefix, a group of short names, then every sequence of <= n tokens of `alpha`
+GroupArgvs(pres, groups, alpha, n) == {p \o <<g>> \o s : p \in pres, g \in groups, s \in UNION {[1..k -> alpha] : k \in 0..n}}
+Init == /\ res = [ok |-> TRUE, insts |-> <<>>, tail |-> <<0>>, exact |-> TRUE]
+        /\ \/ argv \in ArgvSet /\ tab \in Tables
+           \/ argv \in ArgvSet2 /\ tab \in Tables2
 ParseStep == res.tail = <<0>> /\ res' = Parse(<<0>> \o argv, tab) /\ UNCHANGED <<argv, tab>>
 Next == ParseStep
 Spec == Init /\ [][Next]_<<argv, tab, res>>
 Parsed == res.tail # <<0>>
 \* sanity of the specification itself: when parsing succeeds every token is an option, one of its parameters, the
-\* "--" or in the tail: the lengths add up
-Accounted == (Parsed /\ res.ok) =>
-    LET used == Len(res.insts) + (IF res.insts = <<>> THEN 0 ELSE
-                    LET S[k \in 0..Len(res.insts)] == IF k = 0 THEN 0 ELSE S[k - 1] + Len(res.insts[k][2]) IN S[Len(res.insts)])
-    IN used + Len(res.tail) \in {Len(argv), Len(argv) - 1}
+\* "--" or in the tail: the lengths add up (a group of k letters that is parsed stands for k options)
+ParamCount(r) == IF r.insts = <<>> THEN 0 ELSE
+                    LET S[k \in 0..Len(r.insts)] == IF k = 0 THEN 0 ELSE S[k - 1] + Len(r.insts[k][2]) IN S[Len(r.insts)]
+Accounted == (Parsed /\ res.ok /\ \A k \in 1..Len(argv) : ~IsGroup(argv[k])) =>
+    Len(res.insts) + ParamCount(res) + Len(res.tail) \in {Len(argv), Len(argv) - 1}
+\* a successful parse never reports the placeholder of a missing parameter, and reports exact results
+NoPlaceholder == (Parsed /\ res.ok) => /\ res.exact
+                                       /\ \A k \in 1..Len(res.tail) : res.tail[k] # TEmpty
+                                       /\ \A k \in 1..Len(res.insts) : \A j \in 1..Len(res.insts[k][2]) : res.insts[k][2][j] # TEmpty
+\* "-xy.." is equivalent to "-x -y ..": a leading group of parameterless letters parses as the letters given separately
+GroupOfFlags == \A k \in {j \in 1..Len(argv) : j = 1} :
+    (IsGroup(argv[k]) /\ \A j \in 1..Len(Letters(argv[k])) : LetterOpt(Letters(argv[k])[j], tab) # 0 /\ tab.np[Letters(argv[k])[j]] = 0)
+    => LET sep == SubSeq(argv, 1, k - 1) \o [j \in 1..Len(Letters(argv[k])) |-> LBase + Letters(argv[k])[j]] \o SubSeq(argv, k + 1, Len(argv))
+           r1 == Parse(<<0>> \o argv, tab)
+           r2 == Parse(<<0>> \o sep, tab)
+       IN r1.ok = r2.ok /\ r1.insts = r2.insts /\ (r1.exact /\ r2.exact => r1.tail = r2.tail)
 Emit == Parsed => PrintT(<<"VH", ToJson([argv |-> argv, np |-> tab.np, short |-> tab.short])>>)
 ========================================================================
